@@ -29,6 +29,7 @@ func init() {
 			{ID: "R17d", Floor: 1, Doc: "extraction is sequential: no goroutine is started in the extraction scope, so nothing the extractor itself creates can appear between a path's resolvePath check and its use", Run: ruleR17d},
 			{ID: "R17c", Floor: 1, Doc: "symlink-following sinks need a final-component guard (Lstat) in the sanitiser and no symlink just created at that path", Run: ruleR17c},
 			{ID: "R17e", Floor: 1, Doc: "the extractor never removes or replaces an existing path (= R18f)", Run: ruleR18f},
+			{ID: "R17f", Floor: 3, Doc: "a refused path is not handed out and the refusal is what gets tested: every error return of resolvePath carries the empty path, and every caller tests (or returns) the error of resolvePath itself before anything else is assigned to that variable", Run: ruleR17f},
 		},
 	})
 }
@@ -74,7 +75,7 @@ func extractionScope(c *Ctx) ([]*ssa.Function, error) {
 		}
 		eachInstr(fn, func(in ssa.Instruction) {
 			if ci, ok := in.(ssa.CallInstruction); ok {
-				if sc := ci.Common().StaticCallee(); sc != nil {
+				if sc := staticTarget(ci.Common()); sc != nil {
 					visit(sc)
 				}
 				for _, callee := range c.Callees(ci) {
@@ -127,7 +128,7 @@ func pathLeavesV(c *Ctx, scope []*ssa.Function, fn *ssa.Function, v ssa.Value, d
 					if !ok {
 						return
 					}
-					hit := ci.Common().StaticCallee() == owner
+					hit := staticTarget(ci.Common()) == owner
 					if !hit {
 						// calls through a local closure variable
 						if mc, ok := canon(ci.Common().Value).(*ssa.MakeClosure); ok && mc.Fn == ssa.Value(owner) {
@@ -304,7 +305,7 @@ func ruleR17b(c *Ctx, r *Report) {
 	for _, g := range c.RepoFuncs() {
 		eachInstr(g, func(in ssa.Instruction) {
 			ci, ok := in.(*ssa.Call)
-			if !ok || ci.Common().StaticCallee() != fn {
+			if !ok || staticTarget(ci.Common()) != fn {
 				return
 			}
 			ord[fnKey(g)]++
@@ -372,7 +373,7 @@ func virtualPathOK(v ssa.Value, depth int) bool {
 					}
 					for _, gg := range withAnon(g) {
 						eachInstr(gg, func(in ssa.Instruction) {
-							if ci, isCall := in.(ssa.CallInstruction); isCall && ci.Common().StaticCallee() == owner {
+							if ci, isCall := in.(ssa.CallInstruction); isCall && staticTarget(ci.Common()) == owner {
 								n++
 								if depth < 3 && !virtualPathOK(ci.Common().Args[idx], depth+1) {
 									ok = false
@@ -544,7 +545,7 @@ func ruleR17d(c *Ctx, r *Report) {
 			var tgt []*ssa.Function
 			if mc, isMC := g.Call.Value.(*ssa.MakeClosure); isMC {
 				tgt = append(tgt, mc.Fn.(*ssa.Function))
-			} else if sc := g.Call.StaticCallee(); sc != nil {
+			} else if sc := staticTarget(&g.Call); sc != nil {
 				tgt = append(tgt, sc)
 			} else {
 				tgt = append(tgt, c.Callees(g)...)
@@ -574,7 +575,7 @@ func ruleR17d(c *Ctx, r *Report) {
 							touches = true
 						}
 					}
-					if sc := ci.Common().StaticCallee(); sc != nil {
+					if sc := staticTarget(ci.Common()); sc != nil {
 						visit(sc)
 					}
 					for _, callee := range c.Callees(ci) {
